@@ -17,15 +17,15 @@ git -C "$wt" apply "$patch" || { echo "patch does not apply" >&2; exit 2; }
 caught=()
 for p in "${props[@]}"; do
   s=$(date +%s)
-  out=$(VERIF_REPO="$wt" VERIF_OUT=/dev/shm/seedtest-out /verif/check.sh "$p" "$tier" 2>&1); rc=$?
+  out=$(VERIF_REPO="$wt" VERIF_OUT=/dev/shm/seedtest-out${VERIF_ALT:-} /verif/check.sh "$p" "$tier" 2>&1); rc=$?
   e=$(date +%s)
   nv=$(echo "$out" | grep -c '^VIOLATION')
   sigs=$(echo "$out" | grep "^--- $p sig=" | sed 's/^--- //' | sort | uniq -c | head -4 | tr '\n' ';')
-  hn=$(grep -c 'HARNESS' /dev/shm/seedtest-out/evidence/$p.json 2>/dev/null)
+  hn=$(grep -c 'HARNESS' /dev/shm/seedtest-out${VERIF_ALT:-}/evidence/$p.json 2>/dev/null)
   [ "${hn:-0}" -gt 0 ] && sigs="$sigs HARNESS-notes=$hn"
   echo "$p rc=$rc violations=$nv $((e-s))s $sigs"
   [ $rc -eq 1 ] && caught+=("$p")
   [ $rc -eq 2 ] && echo "$out" | tail -5
 done
-rm -rf /dev/shm/seedtest-out
+rm -rf /dev/shm/seedtest-out${VERIF_ALT:-}
 echo "CAUGHT-BY: ${caught[*]:-none}"
